@@ -22,7 +22,7 @@ FLOORS = {"quick": {"unary": 50000, "addsub": 200000, "scale": 200000, "divmod":
           "thorough": {"unary": 500000, "addsub": 2 * 10**6, "scale": 2 * 10**6, "divmod": 2 * 10**6, "compare": 10**6,
                        "yearsmonths": 200000, "interval_ops": 50000}}
 REQUIRED_HOOKS = []      # the private _divide_and_round hook adds an exact-rational check; the operators are judged at the boundary
-TECHNIQUE = "differential runtime monitor against datetime.timedelta for every Duration operator x operand kind x side; contract on _divide_and_round against exact rational round-half-even"
+TECHNIQUE = "differential runtime monitor against datetime.timedelta for every Duration operator x operand kind x side; contract on _divide_and_round against exact rational round-half-even; Interval (signed/absolute) operands on both sides; fold-sibling intervals visited in one process (history workload)"
 LEVEL_TEXT = ("every operator result is compared with the same operator on native timedeltas (exact integer microseconds) and its "
               "type is checked; operands include both signs, plain timedeltas on either side, ints, floats with long binary "
               "expansions and constructed round-half-even ties; held on what was observed")
